@@ -117,6 +117,10 @@ def facts_dir(config="default", quiet=False):
     out = os.path.join(CACHE, "facts", th, config)
     marker = os.path.join(out, ".complete")
     if os.path.exists(marker):
+        try:
+            os.utime(os.path.dirname(out))     # least-recently-USED eviction in _gc_old
+        except OSError:
+            pass
         return out
     lock_path = os.path.join(CACHE, "extract.lock")
     with open(lock_path, "w") as lk:
@@ -163,7 +167,7 @@ def _gc_old(keep):
     base = os.path.join(CACHE, "facts")
     ents = [(os.path.getmtime(os.path.join(base, d)), d) for d in os.listdir(base) if d != keep]
     ents.sort(reverse=True)
-    for _, d in ents[2:]:
+    for _, d in ents[4:]:
         shutil.rmtree(os.path.join(base, d), ignore_errors=True)
 
 
